@@ -8,6 +8,9 @@ CONSTANTS N,              \* number of named types 1..N
           MaxObjFields,   \* objects have 0..MaxObjFields fields
           MaxUnionFields, \* unions have 0..MaxUnionFields members
           MapExprs,       \* include map<k,v> expressions
+          Kinds,          \* kinds of type definitions enumerated (subset of enum/alias/object/union)
+          Bearer,         \* include the bearertoken atom
+          Decls,          \* declared safeties usable on primitive fields (subset of safe/unsafe/dnl)
           ArgMode,        \* "perm": one undeclared arg per type in order 1..N; all evaluation orders
                           \*         are covered because the set of tables is closed under renaming
                           \* "free": any sequence of 1..MaxArgs args over the full arg alphabet
@@ -22,20 +25,20 @@ vars == <<tab, args, st, i, marked, phase>>
 
 Refs == 1..N
 EmitRes == IF "EMITRES" \in DOMAIN IOEnv THEN atoi(IOEnv.EMITRES) % EmitMod ELSE 0
-Atoms == {BEARER, PRIM} \cup Refs
+Atoms == (IF Bearer THEN {BEARER} ELSE {}) \cup {PRIM} \cup Refs
 Exprs == {<<a>> : a \in Atoms}
          \cup (IF MapExprs THEN {<<k, v>> : k \in {PRIM} \cup Refs, v \in Refs} ELSE {})
 
 (* Conjure only allows a declared safety on (wrappers of) primitives *)
 FieldDefs == [decl : {"undeclared"}, ty : Exprs]
-             \cup [decl : {"safe", "unsafe", "dnl"}, ty : {<<PRIM>>}]
+             \cup [decl : Decls, ty : {<<PRIM>>}]
 
 FieldSeqs(n) == UNION {[1..k -> FieldDefs] : k \in 0..n}
 
-TypeDefs == {[kind |-> "enum", fields |-> <<>>]}
-            \cup {[kind |-> "alias", fields |-> <<f>>] : f \in FieldDefs}
-            \cup {[kind |-> "object", fields |-> fs] : fs \in FieldSeqs(MaxObjFields)}
-            \cup {[kind |-> "union", fields |-> fs] : fs \in FieldSeqs(MaxUnionFields)}
+TypeDefs == (IF "enum" \in Kinds THEN {[kind |-> "enum", fields |-> <<>>]} ELSE {})
+            \cup (IF "alias" \in Kinds THEN {[kind |-> "alias", fields |-> <<f>>] : f \in FieldDefs} ELSE {})
+            \cup (IF "object" \in Kinds THEN {[kind |-> "object", fields |-> fs] : fs \in FieldSeqs(MaxObjFields)} ELSE {})
+            \cup (IF "union" \in Kinds THEN {[kind |-> "union", fields |-> fs] : fs \in FieldSeqs(MaxUnionFields)} ELSE {})
 
 (* map keys must be primitives, enums or aliases of those *)
 KeyOk(tb, k) == k = PRIM \/ (k \in Refs /\ (tb[k].kind = "enum"
